@@ -1927,6 +1927,8 @@ class VM:
             if offset + len(values) > arr.length:
                 raise JSRangeError("offset is out of bounds")
             for i, value in enumerate(values):
+                if isinstance(value, JSObject):
+                    value = to_number(value)
                 arr.set_index(offset + i, value)
             return UNDEFINED
 
@@ -2568,11 +2570,15 @@ class VM:
         if isinstance(obj, JSTypedArray):
             try:
                 idx = int(key_str)
-                if idx >= 0:
-                    obj.set_index(idx, value)
-                    return
             except ValueError:
-                pass
+                idx = -1
+            if idx >= 0:
+                # The stored number is ToNumber(value): objects are converted
+                # through their valueOf / toString
+                if isinstance(value, JSObject):
+                    value = self._to_number(value)
+                obj.set_index(idx, value)
+                return
             obj.set(key_str, value)
             return
 
